@@ -18,7 +18,7 @@ import (
 
 const blkScenario = "blocking-modes/real-sockets/history-enumeration"
 
-var c18Alphabet = []string{"ka", "v10", "partial", "finish", "ws", "wsmsg", "wsclose", "pclose", "phalf"}
+var c18Alphabet = []string{"ka", "v10", "bigstall", "partial", "finish", "ws", "wsmsg", "wsclose", "pclose", "phalf"}
 
 // c18Cases lists the cases of a tier in a fixed order.
 func c18Cases(tier string, visit func(blkkit.Case)) {
@@ -43,6 +43,11 @@ func c18Cases(tier string, visit func(blkkit.Case)) {
 				cfgs = append(cfgs, blkkit.Cfg{Mode: mode, TCP: true})
 			}
 			for _, cfg := range cfgs {
+				if blkkit.Has(h, "bigstall") {
+					// a 70000-byte response against a 4096-byte send buffer and a peer that does not read:
+					// the write is in flight (blocked in the reader goroutine, or queued by the poller)
+					cfg.SndBuf = 4096
+				}
 				for _, end := range []string{"stop", "shutdown", "peersclose-stop"} {
 					visit(blkkit.Case{Cfg: cfg, Hist: h, End: end})
 				}
